@@ -133,18 +133,14 @@ Definition first_in_cycle (o : opts) (h : Z) : bool := (h - 1) mod o_cycle o =? 
 Definition last_in_cycle (o : opts) (h : Z) : bool := h mod o_cycle o =? 0.
 Definition cycle_end (o : opts) (h : Z) : Z := (h - 1) / o_cycle o * o_cycle o + 1.
 
-(* secondsPerCycleLatest: (secsPerCycle, tEnd); [bt] = header time (ns) of the block meta *)
+(* secondsPerCycleLatest: (secsPerCycle, tEnd); [bt] = header time (ns) of the block meta.
+   Since 0cc9fdb a measured duration (or estimate) below one second counts as one second. *)
 Definition secs_per_cycle (o : opts) (bt : Z -> Z) (h : Z) : Z * Z :=
   if o_cycle o <? h then
     let e := cycle_end o h in
     let b := e - o_cycle o in
-    (dur_secs (bt e - bt b), bt e)
-  else (o_est o, bt 1).
-
-(* trigger of the known finding C13.zero_length_cycle: the measured duration of the last full
-   cycle is below one second, so the forecast divides by zero *)
-Definition zero_len_cycle (o : opts) (bt : Z -> Z) (h : Z) : bool :=
-  (o_cycle o <? h) && (fst (secs_per_cycle o bt h) =? 0).
+    (Z.max 1 (dur_secs (bt e - bt b)), bt e)
+  else (Z.max 1 (o_est o), bt 1).
 
 (* numofMoreBlocksBeforeYearClose: first year inside the window with a non-zero forecast *)
 Fixpoint more_blocks (o : opts) (secs tend : Z) (ys : list year) (i : Z) : Z * Z :=
@@ -168,26 +164,26 @@ Definition recompute (o : opts) (bt : Z -> Z) (ys : list year) (h : Z) (c : cach
   if fst nb =? 0 then (COk (o_burnout o), mkCache (snd nb) (cycle_no o h) true (o_burnout o))
   else
     let left := nthZ (o_shares o) (snd nb) 0 - y_till (nthZ ys (snd nb) (mkYear 0 0 0)) in
-    if left <? 0 then (CErr, c)
+    if left <? 0 then (CErr, cold)   (* 47bb3a6: the cached result of the previous cycle is dropped *)
     else let a := ediv left (fst nb) in
          (COk a, mkCache (snd nb) (cycle_no o h) false a).
 
-(* RewardCalculator.Calculate after Reset(h, ys) *)
+(* RewardCalculator.Calculate after Reset(h, ys).  Since 6bfa5cf a cached burnout is recalculated
+   at the first block of every cycle like any other result. *)
 Definition calculate (o : opts) (bt : Z -> Z) (ys : list year) (h : Z) (c : cache) : cres * cache :=
   if warm c then
-    if c_burned c then (COk (c_amt c), c)
-    else if negb (first_in_cycle o h) then (COk (c_amt c), c)
+    if negb (first_in_cycle o h) then (COk (c_amt c), c)
     else recompute o bt ys h c
   else recompute o bt ys h c.
 
-(* trigger of the known finding C13.overdrawn_year: the year picked by the forecast has already
-   distributed more than its supply ("never happen by design" in Calculate), so a recalculation
-   fails; Calculate then leaves the cache of the PREVIOUS cycle in place *)
+(* the year picked by the forecast has already distributed more than its supply ("never happen
+   by design" in Calculate): the calculation fails, at every block of the cycle and on every node *)
 Definition overdrawn (o : opts) (bt : Z -> Z) (ys : list year) (h : Z) : bool :=
   match fst (recompute o bt ys h cold) with CErr => true | COk _ => false end.
 
-(* second half of the trigger C13.overdrawn_year (its cause): the forecast is shorter than the
-   cycle that is about to start, so the cycle pays the per-block amount more often than forecast *)
+(* the forecast is shorter than the cycle that is about to start, so the cycle pulls the
+   per-block amount more often than forecast: the year's TOTAL can then exceed its supply
+   (each single pull is still within what was left at the cycle start) *)
 Definition short_forecast (o : opts) (bt : Z -> Z) (ys : list year) (h : Z) : bool :=
   let st := secs_per_cycle o bt h in
   let nb := more_blocks o (fst st) (snd st) ys 0 in
@@ -217,10 +213,10 @@ Definition pull (o : opts) (bt : Z -> Z) (ys : list year) (h pool : Z) (c : cach
   | r => r
   end.
 
-(* trigger of the known finding C13.sticky_burnout: a burnout result cached by a running node
-   is never recomputed, a restarted node recomputes it *)
-Definition sticky_burnout (c : cache) : bool := warm c && c_burned c.
-
+(* a run of blocks h, h+1, ...: per block the pool balance and the amount handleBlockRewards then
+   reports to ConsumeRewards (arbitrary here); a failed pull skips ConsumeRewards, as
+   handleBlockRewards returns early.  [all_bounded] = every successful pull of the run is within
+   the bound. *)
 Fixpoint upd_year (ys : list year) (i : nat) (f : year -> year) : list year :=
   match ys, i with
   | [], _ => []
@@ -237,6 +233,18 @@ Definition consume (o : opts) (ys : list year) (h : Z) (c : cache) (consumed : Z
   else upd_year ys (Z.to_nat (c_year c))
          (fun y => let d := y_dist y + consumed in
                    mkYear (y_close y) d (if last_in_cycle o h then d else y_till y)).
+
+Fixpoint all_bounded (o : opts) (bt : Z -> Z) (ys : list year) (c : cache) (h : Z)
+    (steps : list (Z * Z)) : Prop :=
+  match steps with
+  | [] => True
+  | (pool, x) :: r =>
+      match pull o bt ys h pool c with
+      | (COk a, c') => pull_bound o ys pool c' a = true /\
+                       all_bounded o bt (consume o ys h c' x) c' (h + 1) r
+      | (CErr, c') => all_bounded o bt ys c' (h + 1) r
+      end
+  end.
 
 (* ------------------------------------------------------------------------------------------ *)
 (* (c) cumulative records: address -> (matured balance, withdrawn)                              *)
